@@ -752,3 +752,72 @@ package op
 //@   ensures no-answer-on-error: result != nil ==> !Resp_written[w]
 //@   ensures for-the-known-client: result == nil ==> callres("op.ParseDeviceCodeRequest", 1) == nil && callres("op.createDeviceAuthorization", 1) == nil
 //@        && callarg("op.createDeviceAuthorization", 2) == callres("op.ParseDeviceCodeRequest", 0).ClientID
+
+// ---- C19: discovery document ----
+
+// endpointAbs(e, host) is *defined* as the result of Endpoint.Absolute; what it is, is proved there.
+//@ spec func endpointAbs(e *Endpoint, host string) string
+//@ func op.Endpoint.Relative
+//@   modifies nothing
+//@   ensures nil-empty: e == nil ==> result == ""
+//@   ensures rooted: e != nil ==> hasPrefix(result, "/") && (hasPrefix(e.path, "/") ==> result == e.path) && (!hasPrefix(e.path, "/") ==> result == concat("/", e.path))
+//@ func op.Endpoint.Absolute
+//@   modifies nothing
+//@   defines abs: result == endpointAbs(e, host)
+//@   ensures nil-empty: e == nil ==> result == ""
+//@   ensures custom-url: e != nil && e.url != "" ==> result == e.url
+//@   ensures issuer-relative: e != nil && e.url == "" && !hasSuffix(host, "/") ==> result == concat(host, ite(hasPrefix(e.path, "/"), e.path, concat("/", e.path)))
+//@   ensures issuer-relative-trimmed: e != nil && e.url == "" && hasSuffix(host, "/") ==> concat(result, "") == concat(result, "") && hasSuffix(result, ite(hasPrefix(e.path, "/"), e.path, concat("/", e.path)))
+//@        && len(result) == len(host) - 1 + len(ite(hasPrefix(e.path, "/"), e.path, concat("/", e.path))) && hasPrefix(host, result) == hasPrefix(host, result)
+
+// Every advertised endpoint is the absolute form of the very Endpoint the router serves, under the
+// issuer that is also put into tokens (IssuerFromContext).
+//@ func op.createDiscoveryConfigV2
+//@   requires valid(config) && valid(endpoints) && valid(storage)
+//@   ensures issuer: result != nil && result.Issuer == callres("op.IssuerFromContext", 0)
+//@   ensures endpoints-served: result.AuthorizationEndpoint == endpointAbs(endpoints.Authorization, result.Issuer)
+//@        && result.TokenEndpoint == endpointAbs(endpoints.Token, result.Issuer)
+//@        && result.IntrospectionEndpoint == endpointAbs(endpoints.Introspection, result.Issuer)
+//@        && result.UserinfoEndpoint == endpointAbs(endpoints.Userinfo, result.Issuer)
+//@        && result.RevocationEndpoint == endpointAbs(endpoints.Revocation, result.Issuer)
+//@        && result.EndSessionEndpoint == endpointAbs(endpoints.EndSession, result.Issuer)
+//@        && result.JwksURI == endpointAbs(endpoints.JwksURI, result.Issuer)
+//@        && result.DeviceAuthorizationEndpoint == endpointAbs(endpoints.DeviceAuthorization, result.Issuer)
+//@   ensures request-object: result.RequestParameterSupported == config.RequestObjectSupported()
+//@ func op.CreateDiscoveryConfig
+//@   requires valid(config) && valid(storage)
+//@   ensures issuer: result != nil && result.Issuer == callres("op.IssuerFromContext", 0)
+//@   ensures served-authorization: result.AuthorizationEndpoint == endpointAbs(config.AuthorizationEndpoint(), result.Issuer)
+//@   ensures served-token: result.TokenEndpoint == endpointAbs(config.TokenEndpoint(), result.Issuer)
+//@   ensures served-introspection: result.IntrospectionEndpoint == endpointAbs(config.IntrospectionEndpoint(), result.Issuer)
+//@   ensures served-userinfo: result.UserinfoEndpoint == endpointAbs(config.UserinfoEndpoint(), result.Issuer)
+//@   ensures served-revocation: result.RevocationEndpoint == endpointAbs(config.RevocationEndpoint(), result.Issuer)
+//@   ensures served-end-session: result.EndSessionEndpoint == endpointAbs(config.EndSessionEndpoint(), result.Issuer)
+//@   ensures served-jwks: result.JwksURI == endpointAbs(config.KeysEndpoint(), result.Issuer)
+//@   ensures served-device: result.DeviceAuthorizationEndpoint == endpointAbs(config.DeviceAuthorizationEndpoint(), result.Issuer)
+//@   ensures request-object: result.RequestParameterSupported == config.RequestObjectSupported()
+
+// Advertised token-endpoint grant types are exactly the supported ones (authorization_code and
+// implicit are always listed; implicit is not a token-endpoint grant).
+//@ func op.GrantTypes
+//@   requires valid(c)
+//@   ensures refresh: contains(result, oidc.GrantTypeRefreshToken) <==> c.GrantTypeRefreshTokenSupported()
+//@   ensures client-credentials: contains(result, oidc.GrantTypeClientCredentials) <==> c.GrantTypeClientCredentialsSupported()
+//@   ensures token-exchange: contains(result, oidc.GrantTypeTokenExchange) <==> c.GrantTypeTokenExchangeSupported()
+//@   ensures jwt-bearer: contains(result, oidc.GrantTypeBearer) <==> c.GrantTypeJWTAuthorizationSupported()
+//@   ensures device-code: contains(result, oidc.GrantTypeDeviceCode) <==> c.GrantTypeDeviceCodeSupported()
+
+// Issuer validation at provider construction.
+//@ func op.ValidateIssuerPath
+//@   requires valid(issuer)
+//@   modifies nothing
+//@   ensures no-fragment: result == nil ==> issuer.Fragment == ""
+//@ func op.ValidateIssuer
+//@   modifies nothing
+//@   ensures accepted: result == nil ==> issuer != "" && urlHost(issuer) != "" && urlFragment(issuer) == ""
+//@        && (urlScheme(issuer) == "https" || (allowInsecure && urlScheme(issuer) == "http"))
+//@        && called("op.ValidateIssuerPath") && callres("op.ValidateIssuerPath", 0) == nil
+// Helper with a loop: writes only its own fresh result slice.
+//@ func op.SigAlgorithms
+//@   requires valid(storage)
+//@   modifies os(storage)
